@@ -132,13 +132,17 @@ def relocate(text, root):
 SETUP_ATLAS = '''TOOL=release_setup; . "$VERIF_STUBLIB"; sim_log; sim_fault
 if [ "$FAULT_MODE" = "fail-before" ]; then return "$FAULT_RC"; fi
 export AnalysisBaseExternals_PLATFORM=x86_64-stub
+# a command in the middle of the set-up fails; the banner lines after it succeed (as in the real release_setup.sh)
 if [ "$FAULT_MODE" = "fail-after-partial" ]; then false; fi
+echo "Configured GCC from: stub"
+echo "Configured AnalysisBase from: stub"
 '''
 SETUP_CMS = '''TOOL=entrypoint; . "$VERIF_STUBLIB"; sim_log; sim_fault
 if [ "$FAULT_MODE" = "fail-before" ]; then return "$FAULT_RC"; fi
 export VERIF_CMS_ENV=1
 export CVSROOT=stub
 if [ "$FAULT_MODE" = "fail-after-partial" ]; then false; fi
+echo "CMSSW environment: stub"
 '''
 
 
